@@ -308,7 +308,7 @@ def udp_ask(src, dst, port, pkt, v6=False, timeout=2.5):
         s.close()
 
 
-def scenario_dns(rnd):
+def scenario_dns(rnd, hostile_too=False):
     rfd, wfd = os.pipe()
     pid = os.fork()
     if pid == 0:
@@ -336,14 +336,14 @@ def scenario_dns(rnd):
     # hostile datagrams at the listener that answers on this tree ([::1]); after each one a valid query
     # for a fresh name must still be answered
     hostile = []
-    hq = hostile_dns_queries(rnd)
+    hq = hostile_dns_queries(rnd) if hostile_too else []
     rnd.shuffle(hq)
     for k, (what, pkt) in enumerate(hq):
         udp_ask(None, "::1", 5353, pkt, True, timeout=0.25)
         qid += 1
         r = udp_ask(None, "::1", 5353, dns_query(qid, "after-%d.example.com" % k), True, timeout=3.0)
         hostile.append({"after": what, "answered": r is not None and r["id"] == qid and r["rcode"] == 0})
-    for k, name in enumerate(["ede-short.example.com", "ede-empty0.example.com", "garbage.example.com"]):
+    for k, name in enumerate(["ede-short.example.com", "ede-empty0.example.com", "garbage.example.com"] if hostile_too else []):
         qid += 1
         udp_ask(None, "::1", 5353, dns_query(qid, name), True, timeout=0.6)
         qid += 1
@@ -381,6 +381,8 @@ def inner(argv):
                     res["http"] = scenario_http(rnd)
                 elif sc == "dns":
                     res["dns"] = scenario_dns(rnd)
+                elif sc == "dnshostile":
+                    res["dns"] = scenario_dns(rnd, hostile_too=True)
             res["alive_at_end"] = p.poll() is None
             log = open(logpath).read()
             res["panics_in_log"] = log.count("panicked at")
